@@ -47,6 +47,7 @@ fn c04_padding_arithmetic() {
 }
 
 //@ tier: quick
+//@ timeout: 900
 //@ functions: arrow_ipc::writer::reencode_offsets::<i32>
 //@ bound: Binary ArrayData over 5 arbitrary valid i32 offsets into an 8-byte value buffer, symbolic array offset and length (len >= 1, offset + len <= 4): new offsets start at 0, have len+1 entries, entry i = old[offset+i] - old[offset]; reported value range = [old[offset], old[offset+len]); unwind 7
 //@ assume: the input is a valid Binary layout (offsets non-negative, monotone, within the values buffer) - the writer only receives arrays that passed validation (C09)
@@ -78,6 +79,7 @@ fn c04_reencode_offsets_rebases() {
 }
 
 //@ tier: quick
+//@ timeout: 900
 //@ functions: arrow_ipc::writer::get_byte_array_buffers::<i32>, reencode_offsets
 //@ bound: same Binary inputs with symbolic value bytes, incl. the empty array: value i read through the returned (offsets, values) equals value offset+i of the input byte for byte; an empty array yields the single 0 offset the format requires; unwind 10
 //@ assume: valid Binary layout
